@@ -913,6 +913,7 @@ pub const C03: ConcCheck = ConcCheck {
 pub const C03K: ConcCheck = ConcCheck { sub: "refs-perkey", mix: Mix::PerKey, ..C03 };
 pub const C03R: ConcCheck = ConcCheck { sub: "refs-resize", mix: Mix::Resize, ..C03 };
 pub const C03P: ConcCheck = ConcCheck { sub: "refs-probe", mix: Mix::Readers, max_threads: 2, mk_probe: Some(c03_probe), ..C03 };
+pub const C03L: ConcCheck = ConcCheck { sub: "refs-long", mix: Mix::Long, max_threads: 8, max_ops: 10, ..C03 };
 
 const C03_OR: crate::seq::Oracles = crate::seq::Oracles { returns: true, quiescent: false, ledger: true, canary: true, capacity: false, cmp_bound: false, growth: false };
 
@@ -971,6 +972,8 @@ fn c03_shard(ctx: &Ctx, out: &mut ShardOut) {
     C03R.run(ctx, &pool, 5, ctx.share(ctx.by_tier(96, 1_000)) as u32, &b, out);
     let pb = probe_budget(ctx.tier, ctx.shard_seed(86));
     C03P.run(ctx, &pool, 6, ctx.share(ctx.by_tier(64, 400)) as u32, &pb, out);
+    let lb = Budget { single: 0, double: 0, coarse2: 0, tapes: ctx.by_tier(16, 100) as usize, tape_seed: ctx.shard_seed(95) };
+    C03L.run(ctx, &pool, 7, ctx.share(ctx.by_tier(64, 1_500)) as u32, &lb, out);
     let _ = crate::alloc::drain_and_check();
     crate::alloc::enable(false);
 }
@@ -985,6 +988,7 @@ fn c03_replay(sub: &str, case: &Value) -> Result<(), CaseFail> {
         "refs-perkey" => C03K.replay(&Pool::new(), case, &b),
         "refs-resize" => C03R.replay(&Pool::new(), case, &b),
         "refs-probe" => C03P.replay(&Pool::new(), case, &probe_budget(Tier::Thorough, 1)),
+        "refs-long" => C03L.replay(&Pool::new(), case, &Budget { single: 0, double: 0, coarse2: 0, tapes: 100, tape_seed: 1 }),
         _ => C03.replay(&Pool::new(), case, &b),
     };
     crate::alloc::enable(false);
@@ -1017,6 +1021,7 @@ fn c15_judge(_prog: &Prog, out: &ConcOut) -> Result<(bool, Vec<(&'static str, u6
 pub const C15: ConcCheck = ConcCheck { asked: "C15", sub: "hb", mix: Mix::PerKey, max_threads: 3, max_ops: 3, opts: ExecOpts { hb: true, ..ExecOpts::DEFAULT }, judge: c15_judge, mk_probe: NO_PROBE };
 pub const C15R: ConcCheck = ConcCheck { sub: "hb-resize", mix: Mix::Resize, ..C15 };
 pub const C15I: ConcCheck = ConcCheck { sub: "hb-readers", mix: Mix::Readers, ..C15 };
+pub const C15L: ConcCheck = ConcCheck { sub: "hb-long", mix: Mix::Long, max_threads: 8, max_ops: 10, ..C15 };
 
 fn c15_shard(ctx: &Ctx, out: &mut ShardOut) {
     let pool = Pool::new();
@@ -1024,12 +1029,15 @@ fn c15_shard(ctx: &Ctx, out: &mut ShardOut) {
     C15.run(ctx, &pool, 15, ctx.share(ctx.by_tier(1600, 24_000)) as u32, &b, out);
     C15R.run(ctx, &pool, 16, ctx.share(ctx.by_tier(320, 8_000)) as u32, &b, out);
     C15I.run(ctx, &pool, 17, ctx.share(ctx.by_tier(320, 8_000)) as u32, &b, out);
+    let lb = Budget { single: 0, double: 0, coarse2: 0, tapes: ctx.by_tier(16, 100) as usize, tape_seed: ctx.shard_seed(96) };
+    C15L.run(ctx, &pool, 18, ctx.share(ctx.by_tier(64, 1_500)) as u32, &lb, out);
 }
 fn c15_replay(sub: &str, case: &Value) -> Result<(), CaseFail> {
     let b = budget_for(Tier::Thorough, 1);
     match sub {
         "hb-resize" => C15R.replay(&Pool::new(), case, &b),
         "hb-readers" => C15I.replay(&Pool::new(), case, &b),
+        "hb-long" => C15L.replay(&Pool::new(), case, &Budget { single: 0, double: 0, coarse2: 0, tapes: 100, tape_seed: 1 }),
         _ => C15.replay(&Pool::new(), case, &b),
     }
 }
